@@ -585,6 +585,50 @@ fn narrow_cases(cx: &mut Cx, quick: bool) {
     }
 }
 
+/// An operand that is undefined on part of the box (sqrt / ln of a partly negative range, asin beyond 1, a division by
+/// a range containing zero, 0 x inf): its interval is the NaN interval.  Every unary operator applied to it, and then
+/// every binary operator with it on either side (a condition, a bound, a selector that may or may not look at both
+/// lanes of its operands): each op is judged on its own operands (all slots exported) and the whole against the points.
+fn undefined_operand_cases(cx: &mut Cx, rng: &mut Rng, quick: bool) {
+    use vharness::tapes::{GOp, BINARY, UNARY};
+    let producers: [(&str, u8, f32); 5] = [("Sqrt", 3, 0.0), ("Ln", 3, 0.0), ("Asin", 3, 0.0), ("Div", 5, 1.0), ("Recip", 3, 0.0)];
+    let mut k = 0usize;
+    for (pn, pc, pimm) in producers {
+        for u in UNARY.iter() {
+            for b in BINARY.iter() {
+                k += 1;
+                if quick && k % 3 != 0 && !(*u == "Abs" || *u == "Neg" || *u == "Square") { continue; }
+                for side in 0..2 {
+                    // slots: 0 = x, 1 = y, 2 = producer(y), 3 = u(2), 4 = b(x, 3) or b(3, x)
+                    let prod = if pc == 5 { GOp::new(5, pn, 2, 1, -1, bits(pimm)) } else { GOp::new(3, pn, 2, 1, -1, 0) };
+                    let last = if side == 0 { GOp::new(6, b, 4, 0, 3, 0) } else { GOp::new(6, b, 4, 3, 0, 0) };
+                    let p = Prog { ssa: vec![GOp::new(0, "Output", -1, 4, 0, 0), last, GOp::new(3, u, 3, 2, -1, 0), prod, GOp::new(1, "Input", 1, 1, -1, 0), GOp::new(1, "Input", 0, 0, -1, 0)], nvars: 2 };
+                    let (Ok(vmf), Ok(jf)) = (vm_fn::<255>(&p), jit_fn(&p)) else { continue };
+                    let excluded = has_atan2(&p);
+                    for (xb, yb) in [(Interval::new(-1.0, 1.0), Interval::new(-1.0, 4.0)), (Interval::new(0.5, 2.0), Interval::new(-0.5, 0.5)), (Interval::new(-2.0, 0.0), Interval::new(-3.0, 1.5))] {
+                        let bx = vec![xb, yb];
+                        let mut pts = box_samples(rng, &bx, 5);
+                        // points of the box at which the producer is defined
+                        pts.push(vec![xb.lower(), 0.25f32.clamp(yb.lower(), yb.upper())]);
+                        pts.push(vec![xb.upper(), yb.upper()]);
+                        let pf = |q: &[f32]| point_trace(&vmf, q).out;
+                        e2e(cx, "vm-undef", &vmf, &pf, 1, &bx, &pts, excluded, &p);
+                        e2e(cx, "jit-undef", &jf, &pf, 1, &bx, &pts, excluded, &p);
+                        if side == 0 && k % 4 == 0 {
+                            let (pa, map) = export_all_slots(&p);
+                            if let (Ok(vma), Ok(ja)) = (vm_fn::<255>(&pa), jit_fn(&pa)) {
+                                let pouts: Vec<Vec<f32>> = pts.iter().map(|q| point_trace(&vma, q).out).collect();
+                                nodes(cx, "vm", &vma, &pa, &map, &bx, &pts, &pouts);
+                                nodes(cx, "jit", &ja, &pa, &map, &bx, &pts, &pouts);
+                            }
+                        }
+                    }
+                }
+            }
+        }
+    }
+}
+
 fn main() {
     let args: Vec<String> = std::env::args().collect();
     let quick = args[2] == "quick";
@@ -637,6 +681,7 @@ fn main() {
     zero_times_inf_cases(&mut cx, &mut rng);
     inf_minus_inf_cases(&mut cx, &mut rng);
     hashed_zero_cases(&mut cx, &mut rng);
+    undefined_operand_cases(&mut cx, &mut rng, quick);
     narrow_cases(&mut cx, quick);
     transformed::<VmFunction>(&mut cx, "vm", &mut rng, if quick { 300 } else { 4000 });
     transformed::<JitFunction>(&mut cx, "jit", &mut rng, if quick { 300 } else { 4000 });
